@@ -146,6 +146,19 @@ class PyList:
         self.items = list(items)
 
 
+class Ragged:
+    """heap content: list of 1-D real arrays with a symbolic number of rows (built by append in a loop):
+    n rows, rowlen(i) entries in row i, elem(i, j)"""
+    __slots__ = ('n', 'rowlen', 'elem')
+
+    def __init__(self, n, rowlen, elem):
+        self.n, self.rowlen, self.elem = n, rowlen, elem
+
+    def __getitem__(self, ix):
+        i, j = ix
+        return self.elem(i, j)
+
+
 class PyDict:
     """dict with concrete hashable keys, insertion ordered"""
     __slots__ = ('items',)
@@ -171,6 +184,8 @@ class View:
                 return View(self._c, cell.attrs, self._heap)
             if isinstance(cell, PyList):
                 return [self._wrap(x) for x in cell.items]
+            if isinstance(cell, Ragged):
+                return cell
             if isinstance(cell, PyDict):
                 return {k: self._wrap(x) for k, x in cell.items.items()}
         if isinstance(v, tuple):
@@ -215,8 +230,25 @@ class Hinted:
     """a goal with intermediate lemmas: each lemma is itself an obligation (proved from the path
     condition and the earlier lemmas), then the goal is proved from all of them"""
 
-    def __init__(self, goal, lemmas, defs=()):
-        self.goal, self.lemmas, self.defs = goal, list(lemmas), list(defs)
+    def __init__(self, goal, lemmas, defs=(), skolems=(), final_uses=None):
+        self.goal, self.lemmas, self.defs, self.skolems = goal, list(lemmas), list(defs), list(skolems)
+        self.final_uses = final_uses      # None: the goal may use every lemma; k: only the last k lemmas
+
+    def closed(self):
+        """the proved statement as a hypothesis for later clauses: universal closure over the arbitrary
+        constants the proof was done for (with the definitional equations as antecedent)"""
+        g = self.goal
+        while isinstance(g, (Hinted, Scoped)):
+            g = g.goal
+        if not is_sym(g):
+            return g
+        defs = [d for d in self.defs if d is not True]
+        bound = list(self.skolems)
+        for d in defs:
+            bound.append(d.arg(0))
+        if defs:
+            g = z3.Implies(z3.And(*defs), g)
+        return z3.ForAll(bound, g) if bound else g
 
 
 class Scoped:
@@ -227,6 +259,9 @@ class Scoped:
 
     def __init__(self, goal, keep):
         self.goal, self.keep = goal, list(keep)
+
+    def closed(self):
+        return self.goal.closed() if isinstance(self.goal, Hinted) else self.goal
 
 
 class SumFn:
@@ -298,12 +333,12 @@ class Ctx:
         rng = {'real': REAL, 'int': INT, 'bool': BOOL}[kind]
         f = z3.Function(name, *([INT] * len(shape) + [rng]))
         self.inputs.append(('arr', name, (shape, f, kind)))
-        return Arr(shape, lambda ix, f=f: f(*[to_int(i) if not is_sym(i) else i for i in ix]), kind)
+        return Arr(shape, lambda ix, f=f: f(*[_ix(i) for i in ix]), kind)
 
     def fresh_array(self, base, shape, kind='real'):
         rng = {'real': REAL, 'int': INT, 'bool': BOOL}[kind]
         f = z3.Function('%s!%d' % (base, next(self._fresh)), *([INT] * len(shape) + [rng]))
-        return Arr(tuple(shape), lambda ix, f=f: f(*[to_int(i) if not is_sym(i) else i for i in ix]), kind)
+        return Arr(tuple(shape), lambda ix, f=f: f(*[_ix(i) for i in ix]), kind)
 
     def choice(self, name):
         """value selected by the unit variant being verified (concrete in every mode)"""
@@ -476,6 +511,22 @@ class Ctx:
             return True if body else z3.ForAll([i, j], z3.Not(rng))
         return z3.ForAll([i, j], z3.Implies(rng, body))
 
+    def Forall2Dep(self, r0, r1, f):
+        """forall i in [r0), j in [r1(i)): f(i, j) -- the second range may depend on i; one quantifier"""
+        c0 = (conc_int(r0[0]), conc_int(r0[1]))
+        if self.mode == 'conc' or None not in c0:
+            return self.And(*[self.Forall(r1(i)[0], r1(i)[1], lambda j, i=i: f(i, j)) for i in range(c0[0], c0[1])])
+        i, j = self.fresh('q'), self.fresh('q')
+        self.qvars.extend([i, j])
+        try:
+            body = f(i, j)
+        finally:
+            self.qvars.pop()
+            self.qvars.pop()
+        lo1, hi1 = r1(i)
+        rng = z3.And(to_int(r0[0]) <= i, i < to_int(r0[1]), to_int(lo1) <= j, j < to_int(hi1))
+        return z3.ForAll([i, j], z3.Implies(rng, body))
+
     def ForallAdj(self, lo, hi, f):
         """for all q with lo <= q < hi:  f(q, q+1).  In 'sym' mode the successor is a second bound variable
         tied by r == q+1, so instantiation needs BOTH terms to exist already: no matching loop (an adjacent
@@ -535,7 +586,7 @@ class Ctx:
         # constants, inputs, an enclosing Sum's index) becomes a parameter, in first-occurrence order of the
         # un-simplified term.  Two uses of the same spec text therefore share one spec function whatever
         # their arguments are, and congruence relates them.
-        params = _free_consts(body, exclude=K)
+        params = _kfree_maximal(body, K)
         # canonical names (independent of nesting depth) so that equal spec text gives ONE spec function
         ph = [z3.Const('p?%d' % i, q.sort()) for i, q in enumerate(params)]
         Kc = z3.Int('k?')
@@ -604,19 +655,22 @@ class Ctx:
         i = self.fresh('i')
         rng = z3.And(to_int(lo) <= i, i < to_int(hi))
         o = f(i)
+        if isinstance(o, Scoped):
+            raise EngineError('scope(...) goes outside ForallH(...)')
         if isinstance(o, Hinted):
-            return Hinted(self.Implies(rng, o.goal), [self.Implies(rng, l) for l in o.lemmas], o.defs)
-        return self.Implies(rng, o)
+            return Hinted(self.Implies(rng, o.goal), [self.Implies(rng, l) for l in o.lemmas], o.defs, [i] + o.skolems,
+                          o.final_uses)
+        return Hinted(self.Implies(rng, o), [], (), [i])
 
     def scope(self, goal, *keep):
         if self.mode != 'sym':
             return goal          # bounded instances keep every hypothesis so that models are valid inputs
         return Scoped(goal, keep)
 
-    def hint(self, goal, *lemmas, defs=()):
+    def hint(self, goal, *lemmas, defs=(), final_uses=None):
         if self.mode == 'conc':
             return goal
-        return Hinted(goal, lemmas, defs)
+        return Hinted(goal, lemmas, defs, (), final_uses)
 
     def define(self, name, term):
         """definitional extension for lemma chains: a fresh constant equal to `term` (keeps compound
@@ -628,10 +682,33 @@ class Ctx:
         return k, (k == term)
 
     def Len(self, a):
+        if isinstance(a, Ragged) or type(a).__name__ == 'SeqV':
+            return a.n
+        if isinstance(a, (list, tuple)):
+            return len(a)
         return a.shape[0]
+
+    def RowLen(self, a, i):
+        """length of row i of a list of 1-D arrays"""
+        if isinstance(a, Ragged):
+            return a.rowlen(i)
+        row = a[conc_int(i)]
+        return row.shape[0] if hasattr(row, 'shape') else len(row)
+
+    def At2(self, a, i, j):
+        if isinstance(a, Ragged):
+            return a.elem(i, j)
+        return a[conc_int(i)][j]
 
     def Shape(self, a):
         return tuple(a.shape)
+
+
+def _ix(i):
+    """index argument of an array function in canonical (simplified) form, so that k+1-1 and k are one term"""
+    if not is_sym(i):
+        return to_int(i)
+    return z3.simplify(i, som=True) if not z3.is_const(i) else i
 
 
 def _flat(xs):
@@ -641,6 +718,46 @@ def _flat(xs):
                 yield y
         else:
             yield x
+
+
+def _kfree_maximal(t, K):
+    """maximal Int/Real subterms of t that do not mention the summation index K (numerals excluded), in
+    first-occurrence order: the parameters a spec Sum is lambda-lifted over"""
+    kid = K.get_id()
+    has = {}
+
+    def contains(x):
+        i = x.get_id()
+        if i in has:
+            return has[i]
+        if i == kid:
+            r = True
+        elif z3.is_quantifier(x):
+            r = contains(x.body())
+        elif z3.is_app(x):
+            r = any(contains(ch) for ch in x.children())
+        else:
+            r = False
+        has[i] = r
+        return r
+    out, seen = [], set()
+
+    def walk(x):
+        i = x.get_id()
+        if z3.is_quantifier(x):
+            return            # bound structure: left in place
+        if (z3.is_int(x) or z3.is_real(x)) and not contains(x):
+            if z3.is_int_value(x) or z3.is_rational_value(x) or z3.is_algebraic_value(x):
+                return
+            if i not in seen:
+                seen.add(i)
+                out.append(x)
+            return
+        if z3.is_app(x):
+            for ch in x.children():
+                walk(ch)
+    walk(t)
+    return out
 
 
 def _free_consts(t, exclude=None):
